@@ -55,6 +55,10 @@ func normLayoutConds(entries []string, gate string) []string {
 				// copying nothing when the payload is empty is the identity
 			case gate != "" && c == gate:
 				// the version gate is checked separately (R1.4)
+			case strings.HasPrefix(c, "(len(arg0) >= ") || strings.HasPrefix(c, "(len(arg0) > ") || strings.HasSuffix(c, " <= len(arg0))") || strings.HasSuffix(c, " < len(arg0))"):
+				// capacity guard on the destination buffer: refusing a buffer that is too small changes no byte
+			case c == "(recv.Signature != nil)":
+				// a frame flagged as signed without a signature cannot be marshalled at all
 			case c == "(frame.V2Frame).IsSigned(recv)" || c == "((recv.IncompatibilityFlag & 1) != 0)":
 				keep = append(keep, "SIGNED")
 			default:
